@@ -250,6 +250,14 @@ struct World {
                 std::coroutine_handle<> h = next_handle();
                 with(s, [&](auto &o) { lib([&] { o << std::move(h); }); });
             }
+        } else if (a == "AddTo") {
+            // operator<<(handle) until the object holds n handles
+            Slot &s = slots[st.iarg(0)];
+            std::size_t n = (std::size_t) st.iarg(1);
+            while (s.base().size() < n && nextH < maxh) {
+                std::coroutine_handle<> h = next_handle();
+                with(s, [&](auto &o) { lib([&] { o << std::move(h); }); });
+            }
         } else if (a == "MergeShl") {
             Slot &d = slots[st.iarg(0)];
             Slot &s = slots[st.iarg(1)];
